@@ -3,7 +3,7 @@
    enc_* are the wire forms (proved in C03 to be what the writers emit); `tail` is whatever
    follows the section in the stream; both sides return Ok with the same rest of the stream,
    i.e. the same status and the same end position. *)
-From Sbdf Require Import ImpCall Gen.Prog ImpBase ImpFactsSkip.
+From Sbdf Require Import ImpCall Gen.Prog ImpBase ImpFactsSkip ImpFactsSkipObj ImpFactsSkipVa ImpFactsSkipCs.
 From Coq Require Import List.
 From Sbdf Require Import Slice PrimFacts ObjFacts VaFacts SliceFacts.
 
@@ -71,3 +71,64 @@ Theorem C07_source_skip_string : forall s B, Forall byte s ->
   end.
 Proof. exact skip_string_source. Qed.
 Print Assumptions C07_source_skip_string.
+
+(* the skipping side of the object, value-array and column-slice layers from the source (src/object.c, valuearray.c,
+   columnslice.c, translated on every run with their calls): on EVERY byte stream - well-formed, truncated or hostile -
+   each returns the status of the model's function and leaves the stream where the model leaves it.  sbdf_va_skip runs
+   the function it shares with the reader, sbdf_read_valuearray_int, with a null handle; that function is translated in
+   part (what it does with a handle is a fault in the translation), and the theorem shows that none of it is reached. *)
+Theorem C07_source_skip_objects : forall v c pk s B, Forall byte s -> int_min <= c <= int_max ->
+  exists f0, forall f, (f0 <= f)%nat ->
+  match skip_objects false v c (negb (pk =? 0)) s with
+  | Ok (_, s') => exists fin, callE prog_env f prog_sbdf_skip_objects [tok; VInt v; VInt c; VInt pk] s B = OReturn (VInt SBDF_OK) fin /\ inb fin = s' /\ outb fin = []
+  | Err st => exists fin, callE prog_env f prog_sbdf_skip_objects [tok; VInt v; VInt c; VInt pk] s B = OReturn (VInt st) fin /\ outb fin = []
+  end.
+Proof. exact skip_objects_source. Qed.
+Print Assumptions C07_source_skip_objects.
+
+Theorem C07_source_obj_skip_arr : forall t s B, Forall byte s ->
+  exists f0, forall f, (f0 <= f)%nat ->
+  match obj_skip_arr false t s with
+  | Ok (_, s') => exists fin, callE prog_env f prog_sbdf_obj_skip_arr [tok; VInt t] s B = OReturn (VInt SBDF_OK) fin /\ inb fin = s' /\ outb fin = []
+  | Err st => exists fin, callE prog_env f prog_sbdf_obj_skip_arr [tok; VInt t] s B = OReturn (VInt st) fin /\ outb fin = []
+  end.
+Proof. exact obj_skip_arr_source. Qed.
+Print Assumptions C07_source_obj_skip_arr.
+
+Theorem C07_source_obj_skip : forall t s B, Forall byte s ->
+  exists f0, forall f, (f0 <= f)%nat ->
+  match obj_skip false t s with
+  | Ok (_, s') => exists fin, callE prog_env f prog_sbdf_obj_skip [tok; VInt t] s B = OReturn (VInt SBDF_OK) fin /\ inb fin = s' /\ outb fin = []
+  | Err st => exists fin, callE prog_env f prog_sbdf_obj_skip [tok; VInt t] s B = OReturn (VInt st) fin /\ outb fin = []
+  end.
+Proof. exact obj_skip_source. Qed.
+Print Assumptions C07_source_obj_skip.
+
+Theorem C07_source_va_skip : forall s B, Forall byte s ->
+  exists f0, forall f, (f0 <= f)%nat ->
+  match va_skip false s with
+  | Ok (_, s') => exists fin, callE prog_env f prog_sbdf_va_skip [tok] s B = OReturn (VInt SBDF_OK) fin /\ inb fin = s' /\ outb fin = []
+  | Err st => exists fin, callE prog_env f prog_sbdf_va_skip [tok] s B = OReturn (VInt st) fin /\ outb fin = []
+  end.
+Proof. exact va_skip_source. Qed.
+Print Assumptions C07_source_va_skip.
+
+Theorem C07_source_cs_skip : forall s B, Forall byte s ->
+  exists f0, forall f, (f0 <= f)%nat ->
+  match cs_skip false s with
+  | Ok (_, s') => exists fin, callE prog_env f prog_sbdf_cs_skip [tok] s B = OReturn (VInt SBDF_OK) fin /\ inb fin = s' /\ outb fin = []
+  | Err st => exists fin, callE prog_env f prog_sbdf_cs_skip [tok] s B = OReturn (VInt st) fin /\ outb fin = []
+  end.
+Proof. exact cs_skip_source. Qed.
+Print Assumptions C07_source_cs_skip.
+
+(* composed with the model theorem above: the source's sbdf_cs_skip, run on the bytes of any well-formed column slice
+   followed by anything, returns OK with exactly the trailing bytes unread *)
+Theorem C07_source_cs_skip_exact : forall c tail B, wf_cs c -> Forall byte (enc_cs false c ++ tail) ->
+  exists f0, forall f, (f0 <= f)%nat ->
+  exists fin, callE prog_env f prog_sbdf_cs_skip [tok] (enc_cs false c ++ tail) B = OReturn (VInt SBDF_OK) fin /\ inb fin = tail /\ outb fin = [].
+Proof.
+  intros c tail B W Hb. destruct (cs_skip_source (enc_cs false c ++ tail) B Hb) as (f0 & F). exists f0. intros f Hf. specialize (F f Hf).
+  rewrite (cs_skip_exact false c tail W) in F. exact F.
+Qed.
+Print Assumptions C07_source_cs_skip_exact.
